@@ -1863,7 +1863,11 @@ def r_json_load(E):
             if isinstance(par, ast.If) and not any(x is g or any(y is x for y in ast.walk(g)) for g in [par.test]):
                 # conjuncts of the test that are neither a kind test on the value (type(v) == …, isinstance(v, …)) nor
                 # the exclusion of a bookkeeping name (key != "id", key not in (…)) restrict the conversion
-                conj = par.test.values if isinstance(par.test, ast.BoolOp) and isinstance(par.test.op, ast.And) else [par.test]
+                def _flat(e_):
+                    if isinstance(e_, ast.BoolOp) and isinstance(e_.op, ast.And):
+                        return [y for v_ in e_.values for y in _flat(v_)]
+                    return [e_]
+                conj = _flat(par.test)
                 for cj in conj:
                     t = norm(cj)
                     kind_test = "type(" in t or "isinstance(" in t
